@@ -282,7 +282,8 @@ class C15(F.Check):
     pid = 'C15'
     title = 'Keep-alive, timeouts and polling fire when, and only when, they should'
     technique = ('explicit-state exploration of the real run loop on a virtual clock (integer grid): at every wait the environment chooses silence or the '
-                 'arrival of {Pong, Text, server Close, EOF} after every delay 0..poll-1, the application may call close() at any one event; a timing '
+                 'arrival of {Pong, Text, server Close, EOF, one byte of a frame that trickles in -- once or for ever} after every delay 0..poll-1, the opening '
+                 'handshake may be slow, the application may call close() at any one event; a timing '
                  'oracle over time-stamped events and wire frames checks poll cadence, the automatic-ping grid, ping time-out and close time-out '
                  '(never early, always within poll) for parameter sets (poll, ping_rate, ping_timeout, close_timeout)')
     assumptions = [
